@@ -87,6 +87,63 @@ def lck4(P, R, L):
             R.analysed(c.body)
 
 
+def lck4c(P, R, L):
+    R.clause("LCK-4c", "a loop that waits on a condvar re-reads the guarded state it decides on after every wake-up: no switch inside the wait "
+             "cycle depends on a value that was read through the mutex guard before the loop was entered")
+    from ..rules import comparisons
+    from ..dataflow import roots
+    n = 0
+    for cs in [c for c in P.callers_of(WAIT) if not c.body.is_cleanup(c.bb)]:
+        b = cs.body
+        if not in_cycle(b, cs.bb):
+            continue
+        n += 1
+        R.analysed(b)
+        cyc = {x for x in b.reachable(cs.bb) if cs.bb in b.reachable(x)}
+        guard_locals = {l for l in range(len(b.locals)) if is_db_guard_ty(b.local_ty(l))}
+
+        def guarded_read(op, depth=0):
+            """does this operand's value come from a read through the DB mutex guard (accessor call or field copy)?"""
+            for o in origins(b, op):
+                if o.kind == "call" and o.site is not None and o.site.args:
+                    if roots(b, o.site.args[0]) & guard_locals:
+                        return o.site.bb
+                if o.kind in ("param", "field", "local") and o.path and isinstance(o.name, int) and o.name in guard_locals:
+                    return -1
+            return None
+        stale = []
+        for c in comparisons(b):
+            if c.bb not in cyc:
+                continue
+            for side in (c.lhs, c.rhs):
+                if side["k"] not in ("copy", "move"):
+                    continue
+                # nearest named local the compared value was kept in
+                l = side["pl"]["l"]
+                hops = 0
+                while b.local_name(l) is None and hops < 6:
+                    ds = [d for d in b.defs().get(l, []) if d[0] == "stmt" and d[3]["rv"]["k"] in ("use", "cast") and d[3]["rv"]["ops"][0]["k"] in ("copy", "move")
+                          and not d[3]["rv"]["ops"][0]["pl"]["p"]]
+                    if len(ds) != 1:
+                        break
+                    l = ds[0][3]["rv"]["ops"][0]["pl"]["l"]
+                    hops += 1
+                if b.local_name(l) is None:
+                    continue
+                defs = b.defs().get(l, [])
+                if not defs or any(d[1] in cyc for d in defs):
+                    continue
+                # every definition lies outside the wait cycle: is it a read of guarded state?
+                for d in defs:
+                    if d[0] == "call" and d[3]["args"] and roots(b, d[3]["args"][0]) & guard_locals:
+                        stale.append("`%s` (read at line %s, compared at line %s)" % (b.local_name(l), d[3].get("line"), c.line))
+                    elif d[0] == "stmt" and d[3]["rv"].get("ops") and d[3]["rv"]["ops"][0]["k"] in ("copy", "move") and guarded_read(d[3]["rv"]["ops"][0]) is not None:
+                        stale.append("`%s` (read at line %s, compared at line %s)" % (b.local_name(l), d[3].get("line"), c.line))
+        R.check("LCK-4c", b.path + "|wait-loop-rereads-state", not stale, cs.where(),
+                "every guarded value a wait loop decides on is read inside the loop", "; ".join(sorted(set(stale))) or "cycle of %d blocks" % len(cyc))
+    R.floor("LCK-4c", "wait loops", n, 4)
+
+
 def lck4b(P, R, L):
     R.clause("LCK-4b", "every loop that waits on the background-work condvar for a condition only the worker can establish (flush done, "
              "manual compaction done) also leaves when the sticky background error is set — the worker stops working then")
@@ -373,6 +430,7 @@ def run(P, R, L):
     lck3(P, R, L)
     lck4(P, R, L)
     lck4b(P, R, L)
+    lck4c(P, R, L)
     ord10(P, R, L)
     pair4(P, R, L)
     ord11(P, R, L)
